@@ -1070,15 +1070,15 @@ def main(tier, seed, replay=None):
     # ---- failures of the implementation against the property
     reported = set()
     for pop, sr, why, _m in failures:
-        if why[0] in reported and len(reported) >= 1 and nviol >= 3:
-            continue  # one replay per kind of failure, at most a few
+        if nviol >= 3 or (why[0] in reported and nviol >= 2):
+            continue  # at most three replays, preferably of different kinds (keeps a failing quick run short)
         reported.add(why[0])
         if why[0] == "status" and ("MISSING" in why[1] or "PARSEERR" in why[1] or "SLOW" in why[1]):
             violation(PROP, {"property": PROP, "broken": "correspondence harness could not run this case against this tree",
                              "note": note, "case": why[1], "query": sr["q"]}, no_input=True)
             nviol += 1
             continue
-        mpop, msr = (pop, sr) if replay else minimise(public(pop), sr, why[0])
+        mpop, msr = (pop, sr) if replay else minimise(public(pop), sr, why[0], budget=80 if nviol == 0 else 30)
         p1, sp, res, m, w2 = run_one(mpop, msr, exe)
         if not w2:
             p1, sp, res, m, w2 = run_one(public(pop), sr, exe)
